@@ -357,7 +357,7 @@ class DFree(WeightingModel):
     """
 
     def supports_block_quality(self):
-        return True
+        return False
 
     def scorer(self, searcher, fieldname, text, qf=1):
         if not searcher.schema[fieldname].scorable:
@@ -376,6 +376,11 @@ class DFreeScorer(WeightLengthScorer):
 
         self.qf = qf
         self.setup(searcher, fieldname, text)
+
+    def supports_block_quality(self):
+        # The DFree formula is not monotonic in term weight and field length,
+        # so score(max weight, min length) is not an upper bound
+        return False
 
     def _score(self, weight, length):
         return dfree(weight, self.cf, self.qf, length, self.fl)
@@ -432,6 +437,11 @@ class PL2Scorer(WeightLengthScorer):
         self.c = c
         self.qf = qf
         self.setup(searcher, fieldname, text)
+
+    def supports_block_quality(self):
+        # The PL2 formula is not monotonic in term weight and field length,
+        # so score(max weight, min length) is not an upper bound
+        return False
 
     def _score(self, weight, length):
         return pl2(weight, self.cf, self.qf, self.dc, length, self.avgfl,
